@@ -17,12 +17,23 @@ RULE = ("valid-by-construction operations over generated schemas (interfaces, un
         "self-alias, a literal argument, a variable default) -- decided by the extracted doc_has_redex.")
 
 PASSES = {
-    "proved (exec preserved + idempotent)": [],
-    "modelled, correspondence only": [],
+    "proved: exec preserved (any two fuels at which both executions finish) + idempotent": [
+        "remove_self_aliasing (self_alias)",
+        "fragment_spread_inlining (frag_inline; idempotence once no spread is left -- refuted on fragment cycles)",
+        "field_deduplication (dedup)",
+        "directive_include_skip (include_skip; exec preserved when the pass reads the conditions like the executor and "
+        "empties no selection set -- strict equality refuted when the __internal_typename placeholder is inserted; idempotent)",
+        "fragment_definition_removal (remove_frag_defs; exec preserved when the operations are spread-free; idempotent)",
+        "composition norm_proved = dedup . remove_frag_defs . self_alias . frag_inline . include_skip (c03_norm_preserves_exec_partial)",
+    ],
+    "modelled, correspondence only (corr:C03/<pass> on Go's own intermediate trees + corr:C03/composition)": [
+        "inline_selections_from_inline_fragments (inline_sel)",
+        "inline_fragment_selection_merging (merge_sel; working tree at a156714: arguments are compared)",
+    ],
     "not modelled (semantic differential only)": [
         "variables_extraction", "variables_default_value_extraction", "inject_input_default_values",
         "input_coercion_for_list", "variables_unused_deletion", "variables_mapper", "operation_definition_removal",
-        "defer_* (disabled: no @defer in generated operations)"],
+        "defer_* (enabled as in the engine, but no @defer in generated operations)"],
 }
 
 
